@@ -456,7 +456,24 @@ func run(c *fw.Ctx) {
 	})
 
 	// --- universes: several near-identical guarded requirements on ONE resolver
-	runUniverses(c, checkMarker)
+	nPyUniverse := c.N(1500, 10000)
+	runUniverses(c, checkMarker, func(m *M, raw string, extras []string) {
+		if nPyUniverse <= 0 {
+			return
+		}
+		// packaging <= 21 parses with pyparsing, which expands tabs to column-dependent runs of
+		// blanks before parsing (also inside quoted literals); the reference (PEP 508, packaging >= 22)
+		// keeps the tab. Not a question the pinned packaging can answer: not sent.
+		tab := false
+		m.leaves(func(l *M) { tab = tab || strings.Contains(l.Lit, "\t") })
+		if tab {
+			c.Count("ref_validation:not-sent-tab-inside-literal")
+			return
+		}
+		nPyUniverse--
+		want := map[tri]string{triFalse: "F", triTrue: "T", triErr: "ERR"}[refEval(m, env, extras)]
+		py = append(py, pyQuery{quirk: markerQuirk(m), q: map[string]any{"k": "marker", "s": raw, "extras": extras, "env": env}, want: map[string]any{"v": want}, desc: fmt.Sprintf("marker %q extras=%v", raw, extras)})
+	})
 
 	validateAgainstPackaging(c, py)
 }
